@@ -17,6 +17,24 @@ import (
 
 func init() { props["C06"] = runC06 }
 
+func neg01(b bool) string {
+	if b {
+		return "1"
+	}
+	return "0"
+}
+
+// unblank: a blank-separated list of hex-encoded literals as one string without the blanks inside the literals
+// (the tokenizer may deliver IS NOT NULL, NOT NULL … as one token or several)
+func unblank(hexes string) string {
+	var sb strings.Builder
+	for _, h := range strings.Fields(hexes) {
+		b, _ := hex.DecodeString(h)
+		sb.WriteString(strings.ReplaceAll(string(b), " ", ""))
+	}
+	return sb.String()
+}
+
 type serialiser struct {
 	name string
 	// from the parsed tree (preferred) or from the text
@@ -231,6 +249,28 @@ func runC06(c *runCtx) {
 			case "not":
 				sb.WriteString("N " + hx("NOT") + " ")
 				prefix(e.A[0], sb)
+			case "func":
+				sb.WriteString("C " + hx(e.Op) + " " + fmt.Sprint(len(e.A)) + " ")
+				for _, a := range e.A {
+					prefix(a, sb)
+				}
+			case "isnull":
+				sb.WriteString("I " + neg01(e.Not) + " ")
+				prefix(e.A[0], sb)
+			case "between":
+				sb.WriteString("W " + neg01(e.Not) + " ")
+				prefix(e.A[0], sb)
+				prefix(e.A[1], sb)
+				prefix(e.A[2], sb)
+			case "like":
+				sb.WriteString("L " + neg01(e.Not) + " " + hx(e.Op) + " ")
+				prefix(e.A[0], sb)
+				prefix(e.A[1], sb)
+			case "inlist":
+				sb.WriteString("S " + neg01(e.Not) + " " + fmt.Sprint(len(e.A)-1) + " ")
+				for _, a := range e.A {
+					prefix(a, sb)
+				}
 			case "ident":
 				sb.WriteString("A ident " + hx(e.Name) + " ")
 			case "num":
@@ -257,7 +297,25 @@ func runC06(c *runCtx) {
 				}
 				return &GExpr{K: "bool", Name: pg.r.Pick([]string{"TRUE", "FALSE"})}
 			}
-			switch pg.r.Intn(8) {
+			switch pg.r.Intn(13) {
+			case 8:
+				return &GExpr{K: "isnull", Not: pg.r.Bool(), A: []*GExpr{core(d - 1)}}
+			case 9:
+				return &GExpr{K: "between", Not: pg.r.Bool(), A: []*GExpr{core(d - 1), core(d - 1), core(d - 1)}}
+			case 10:
+				return &GExpr{K: "like", Op: pg.r.Pick([]string{"LIKE", "ILIKE"}), Not: pg.r.Bool(), A: []*GExpr{core(d - 1), core(d - 1)}}
+			case 11:
+				xs := []*GExpr{core(d - 1)}
+				for k := 0; k < 1+pg.r.Intn(3); k++ {
+					xs = append(xs, core(d-1))
+				}
+				return &GExpr{K: "inlist", Not: pg.r.Bool(), A: xs}
+			case 12:
+				var xs []*GExpr
+				for k := 0; k < pg.r.Intn(4); k++ {
+					xs = append(xs, core(d-1))
+				}
+				return &GExpr{K: "func", Op: pg.r.Pick([]string{"f", "COALESCE", "lower", "Abs", "nullif"}), A: xs}
 			case 0:
 				return &GExpr{K: "not", A: []*GExpr{core(d - 1)}}
 			case 1, 2:
@@ -299,7 +357,7 @@ func runC06(c *runCtx) {
 				continue
 			}
 			res.CorrCases++
-			if ans != strings.Join(lits, " ") {
+			if unblank(ans) != unblank(strings.Join(lits, " ")) {
 				res.corrFail("print-model", "Lean serialiser rule differs from BinaryExpression.SQL / UnaryExpression.SQL", map[string]any{"model_tree": e.canon()}, map[string]any{"real_text": written, "model": ans, "real": strings.Join(lits, " ")})
 			}
 		}
